@@ -216,6 +216,7 @@ def check_plan(ctx, plan):
     m = {(k, ri): i for k, ri, i in marks}
     rm = {(k, ri): i for k, ri, i in rmarks}
     append = False
+    diverged = False          # a run failed here but not in the reference (injected sink fault): later runs start from different states
     nontrivial = False
     dkey = []
     faulted = f is not None
@@ -237,7 +238,9 @@ def check_plan(ctx, plan):
         ret, rret = runop.f[0], rrunop.f[0]
         if expect_err:
             rep.count("runs_with_errors")
-        if not this_fault and (ret != "0") != (rret != "0"):
+        if (ret != "0") != (rret != "0") and this_fault:
+            diverged = True
+        if not this_fault and not diverged and (ret != "0") != (rret != "0"):
             rep.viol("results", "C09:return_value_depends_on_sinks", "%s returned %s, reference (strings on, files off) returned %s" % (where, ret, rret))
         written = [e for e in log if "w" in e["mode"] or "a" in e["mode"]]
         accounted = set()
@@ -395,9 +398,9 @@ def check_plan(ctx, plan):
                     rep.viol("disabled_sink", "C09:Sel:file_disabled", "%s: block %d file switch off but %r was opened" % (where, n, name))
             # results against the reference
             rtab = parse_table(rpost.get(p + "table", ""))
-            if not this_fault and not compare_tables(tab, rtab):
+            if not this_fault and not diverged and not compare_tables(tab, rtab):
                 rep.viol("results", "C09:results_depend_on_sinks", "%s: block %d table differs from the reference run (all strings on, files off): %s" % (where, n, table_diff(tab, rtab)))
-        if not this_fault and post["selnums"] != rpost["selnums"]:
+        if not this_fault and not diverged and post["selnums"] != rpost["selnums"]:
             rep.viol("results", "C09:results_depend_on_sinks", "%s: defined blocks %s vs reference %s" % (where, post["selnums"], rpost["selnums"]))
         # ---- nothing else may have been written ---------------------------------------------------
         for e in written:
